@@ -66,7 +66,12 @@ type FCode struct {
 	Info  []Piece
 	Lines []string
 }
-type Quote struct{ C []Block }
+type Quote struct {
+	C []Block
+	// Trail: the quote ends with a line that holds only the marker. Nothing is open inside the quote after it,
+	// so the next line (without marker) cannot be a lazy continuation and another block may follow directly.
+	Trail bool
+}
 type List struct {
 	Ordered bool
 	Start   int
